@@ -45,11 +45,18 @@ CORPUS = [
       (False, [], None, True)], {}),
     ([(False, [dict(callee=1), dict(callee=1, ctx={"a": 1}), dict(callee=1, ctx={"a": 2})], None), (False, [dict(callee=2)], None),
       (False, [], None, True)], {}),
+    # the leaf's value depends on the context only through its result expression (no child call, same eval hash in every context):
+    # a=1 at depth 1, a=2 two levels deeper (looked up after the first was recorded), then a=1 and no context again
+    ([(False, [dict(callee=4, ctx={"a": 1}), dict(callee=1)], None), (False, [dict(callee=2)], None),
+      (False, [dict(callee=4, ctx={"a": 2}), dict(callee=3)], None), (False, [dict(callee=4, ctx={"a": 1}), dict(callee=4, ctx={"b": 1})], None),
+      (False, [], None, "lazy")], {}),
+    ([(False, [dict(callee=1, ctx={"a": 4})], None), (False, [dict(callee=3), dict(callee=2, ctx={"a": 5})], None),
+      (False, [dict(callee=3, scope="CSE")], None), (False, [], None, "lazy")], {}),
 ]
 
 
-def one_run(ctx, p, decisions=None, rng=None, items=None, tag="random"):
-    st, payload, ctl, sched = sc.run_real(p, decisions=decisions, rng=rng)
+def one_run(ctx, p, decisions=None, rng=None, items=None, tag="random", p_complete=0.3):
+    st, payload, ctl, sched = sc.run_real(p, decisions=decisions, rng=rng, p_complete=p_complete)
     by_callee = {}
     for sp in p.specs:
         by_callee.setdefault(sp["callee"], set()).add(json.dumps(sp["ctxd"], sort_keys=True))
@@ -238,6 +245,15 @@ def run(ctx):
         p = sc.gen_program(rng, p_dup=0.8, p_limits=0.1, p_ctx=0.5, p_fail=0.05, allow_optout=False, allow_badexec=False)
         for k in range(2):
             _, hit = one_run(ctx, p, rng=random.Random(rng.random()), items=items)
+            reproduced = reproduced or hit
+        if len(items) >= 50:
+            base.flush(ctx, items)
+    # sequenced duplicates under several contexts: the shared leaf's value depends on the context through its RESULT expression
+    # (same eval hash everywhere) or through its default arguments, or not at all; later calls find earlier twins finished
+    for i in range(ctx.n(24, 500)):
+        p = sc.gen_chain(rng)
+        for k in range(2):
+            _, hit = one_run(ctx, p, rng=random.Random(rng.random()), items=items, tag="chain", p_complete=rng.choice([0.3, 0.7, 0.95]))
             reproduced = reproduced or hit
         if len(items) >= 50:
             base.flush(ctx, items)
